@@ -124,10 +124,14 @@ def gen_case(rng, i, tier):
         ctor["fill_value"] = intfill(ctor.get("fill_value"))
         if "fill_value" in call:
             call["fill_value"] = intfill(call["fill_value"])
-    if rng.random() < 0.12:
+    if rng.random() < (0.5 if data["dtype"] == "int64" else 0.12):
         # dask-backed input, chunked along any dimension (an operated one too, unless its shift involves inner / outer,
         # which is refused for chunked data): what the operators return is the same array of numbers
         data["lazy"] = rng.getrandbits(31)
+        if data["dtype"] == "int64" and isinstance(call["axis"], list) and len(call["axis"]) > 1 and data["lazy"] % 2:
+            # integer-typed lazy data through several axes: the mean formed along the first axis is not an integer, and is
+            # the input of the second step (found by the thorough tier, repaired in /repo)
+            call["op"] = "interp"
     return {
         "layout": layout,
         "ctor": ctor,
